@@ -757,6 +757,35 @@ Proof.
   intros H1 H2 H. unfold plane_multiply. rewrite H1, H2.
   destruct mul_pixelscale_table as (_ & _ & _ & _ & T & _). rewrite (T x y H). reflexivity.
 Qed.
+
+Lemma embed_sum_retilt (g : field S -> list tilt) (l : list (field S)) r c :
+  embed_sum (map (fun f => mkField (fd f) (offr f) (offc f) (g f)) l) r c = embed_sum l r c.
+Proof. unfold embed_sum. generalize (@k0 S). induction l as [|f l IH]; intros a; cbn [map fold_left]; [reflexivity|].
+  rewrite IH. reflexivity. Qed.
+
+(* ---- lentil.Tilt as a plane: the field is untouched, every field's tilt list grows by exactly this one element ---- *)
+Theorem tilt_plane_spec (t : tilt) (P : plane S) (w : pwf S) px : kernel_laws S -> plane_scalar P k1 0%Qc true ->
+  (forall f, In f (pw_data w) -> fvalid f) -> origin_consts (pw_data w) ->
+  mul_pixelscale (pl_pix P) (pw_pix w) = Ok px ->
+  exists w0 w', plane_multiply P w = Ok w0 /\ elem_multiply (CTilt t P) w = Ok w' /\
+    pw_lam w' = pw_lam w /\ pw_shape w' = pw_shape w /\
+    (forall r c, embed_sum (pw_data w') r c = embed_sum (pw_data w) r c) /\
+    map (@ftilt S) (pw_data w') = map (fun f => ftilt f ++ [t]) (pw_data w0).
+Proof.
+  intros Hk Hs Hf Ho Hpx. destruct (default_plane_identity P w px Hk Hs Hf Ho Hpx) as (w0 & E & L & Sh & G).
+  exists w0, (append_tilt t w0). cbn [elem_multiply]. rewrite E. repeat split; try assumption.
+  - intros r c. rewrite <- G. unfold append_tilt. cbn [pw_data]. apply embed_sum_retilt.
+  - unfold append_tilt. cbn [pw_data]. rewrite map_map. reflexivity.
+Qed.
+
+(* ---- attribute updates: a multiply sees exactly the plane's current attributes ---- *)
+Theorem setters_spec (P : plane S) a o m :
+  pl_amp (set_amp P a) = a /\ pl_opd (set_amp P a) = pl_opd P /\ pl_mask (set_amp P a) = pl_mask P /\
+  pl_slices (set_amp P a) = pl_slices P /\
+  pl_opd (set_opd P o) = o /\ pl_amp (set_opd P o) = pl_amp P /\ pl_mask (set_opd P o) = pl_mask P /\
+  pl_slices (set_opd P o) = pl_slices P /\
+  pl_mask (set_mask_inplace P m) = m /\ pl_slices (set_mask_inplace P m) = pl_slices P.
+Proof. repeat split. Qed.
 End PlaneSpec.
 
 (* ================================================================== equal plane functions, equal views *)
